@@ -28,11 +28,11 @@ Qed.
 (* ---- an element that is a reference, when the array is already full ---- *)
 Lemma arr_step_ref_fail L d n g ws f acc iseen X :
   is_lead ws -> wf_ref L n g = true -> max_arr L <= N.of_nat (length acc) ->
-  read_arr_loop L (S (S f)) d acc iseen (ws ++ fmt_ref n g ++ X) = Err Malformed.
+  read_arr_loop L (S (S (S f))) d acc iseen (ws ++ fmt_ref n g ++ X) = Err Malformed.
 Proof.
   intros Hws Hw Hlen. destruct (wf_ref_facts L n g Hw) as (Hin & Hig & Hn0 & Hg0 & Hln & Hlg & Hmk).
   unfold fmt_ref. rewrite <- !app_assoc. cbn [app].
-  destruct (read_int_token L f d n (cSP :: print_int g ++ cSP :: cR :: X) Hin Hln Hn0 eq_refl)
+  destruct (read_int_token L (S f) d n (cSP :: print_int g ++ cSP :: cR :: X) Hin Hln Hn0 eq_refl)
     as (b1 & r1 & E1 & Hg1 & Hread1).
   apply good_head_facts in Hg1 as (Hs1 & H11 & H12 & _).
   rewrite read_arr_loop_eq.
@@ -44,7 +44,6 @@ Proof.
   destruct (max_arr L <? N.of_nat (length acc)) eqn:Elt; [reflexivity|].
   apply N.ltb_ge in Elt. cbn [is_int].
   (* the array holds exactly the limit: the second integer does not fit *)
-  destruct f as [|f]; [discriminate Hread1|].
   destruct (read_int_token L f d g (cSP :: cR :: X) Hig Hlg Hg0 eq_refl)
     as (b2 & r2 & E2 & Hg2 & Hread2).
   apply good_head_facts in Hg2 as (Hs2 & H21 & H22 & _).
@@ -78,7 +77,7 @@ Proof.
     + destruct o; try discriminate. cbn [wf_obj] in Hw1. cbn [osize] in Hfuel.
       change (body false (ORef n g)) with (fmt_ref n g).
       destruct (N.leb_spec (max_arr L) (N.of_nat (length acc))) as [Hge|Hlt].
-      * destruct fuel as [|[|f]]; try lia.
+      * destruct fuel as [|[|[|f]]]; try lia.
         apply arr_step_ref_fail; [apply lead_is_lead | exact Hw1 | exact Hge].
       * destruct fuel as [|[|[|f]]]; try lia.
         rewrite arr_step_ref; [|apply lead_is_lead|exact Hw1|lia].
@@ -113,7 +112,7 @@ Proof.
     + destruct o; try discriminate. cbn [wf_obj] in Hw1. cbn [osize] in Hfuel.
       change (body true (ORef n g)) with (fmt_ref n g).
       destruct (N.leb_spec (max_arr L) (N.of_nat (length acc))) as [Hge|Hlt].
-      * destruct fuel as [|[|f]]; try lia.
+      * destruct fuel as [|[|[|f]]]; try lia.
         apply arr_step_ref_fail; [exact Hlead | exact Hw1 | exact Hge].
       * destruct fuel as [|[|[|f]]]; try lia.
         rewrite arr_step_ref; [|exact Hlead|exact Hw1|lia].
@@ -125,3 +124,395 @@ Proof.
           [ | exact Hlead | exact Hro1 | exact Er | exact Hw1 | lia | exact Hle | exact Ht1 | exact Hns | intros _; exact Hfo ].
         apply IH; auto; [cbn [length] in *; lia | lia].
 Qed.
+
+(* the text of a single array value *)
+Lemma array_text p l :
+  format p [OArr l] = cLB :: (if p then fmt_list_pretty true l else fmt_list_plain false l) ++ [cRB].
+Proof.
+  unfold format. destruct p; cbn [fmt_list_pretty fmt_list_plain]; rewrite fmt_obj_arr;
+    cbn [fst app]; rewrite ?app_nil_r; reflexivity.
+Qed.
+
+Theorem array_limit_full L p l :
+  1 < max_depth L -> forallb (wf_obj L 2) l = true -> max_arr L < N.of_nat (length l) ->
+  scan_objects L (format p [OArr l]) = Err Malformed.
+Proof.
+  intros Hd Hw Hover.
+  assert (Hro : Forall ro_spec l) by (apply Forall_forall; intros; apply ro_all).
+  assert (HP : Forall fuel_spec l) by (apply Forall_forall; intros; apply fuel_all).
+  set (lt := if p then fmt_list_pretty true l else fmt_list_plain false l).
+  assert (Hls : (lsize l <= 2 * length lt + 1)%nat).
+  { subst lt. destruct p; [apply (pretty_fuel l true L 2) | apply (plain_fuel l false L 2)]; assumption. }
+  rewrite array_text. fold lt.
+  apply (scan_objects_err L (cLB :: lt ++ [cRB]) cLB (lt ++ [cRB]) (lsize l + 2)); try reflexivity; try lia.
+  - unfold scan_fuel. cbn [app length]. rewrite !app_length. cbn [length]. unfold bytes, byte in *. lia.
+  - intros f Hf. destruct f as [|[|f]]; try lia.
+    cbn [app]. rewrite read_object_lb, read_array_eq.
+    replace (max_depth L <=? 1) with false by (symmetry; apply N.leb_gt; exact Hd).
+    rewrite <- app_assoc. cbn [app]. subst lt.
+    destruct p; [apply arr_loop_pretty_over_ref | apply arr_loop_plain_over_ref]; auto; cbn [length]; lia.
+Qed.
+
+(* ---- strings ---- *)
+Lemma read_fmt_hex_body_over L : forall l acc rest,
+  wfbs l = true -> N.of_nat (length acc) <= max_str L -> max_str L < N.of_nat (length acc + length l) ->
+  read_hex_body L None acc (fmt_hex_body l ++ cGT :: rest) = Err Malformed.
+Proof.
+  induction l as [|c r IH]; intros acc rest Hw Hle Hover.
+  - cbn [length] in Hover. lia.
+  - apply wfbs_cons in Hw as [Hc Hw].
+    destruct (hex_pair_rt c Hc) as (H1 & H2 & H3).
+    cbn [fmt_hex_body app read_hex_body]. rewrite H1. rewrite H2.
+    destruct (max_str L <=? blen acc) eqn:E; [reflexivity|].
+    apply N.leb_gt in E. unfold blen in E. unfold is_hex in H1, H2. rewrite H3.
+    apply IH; auto; cbn [length] in *; lia.
+Qed.
+
+Theorem string_limit_full L p s :
+  0 < max_depth L -> wfbs s = true ->
+  (if p && use_hex s then max_str L < blen s else max_str L <= blen s) ->
+  scan_objects L (format p [OStr s]) = Err Malformed.
+Proof.
+  intros Hd Hw Hover.
+  assert (Htext : format p [OStr s] = fmt_string p s).
+  { unfold format. destruct p; cbn [fmt_list_pretty fmt_list_plain fmt_obj fst app]; rewrite ?app_nil_r; reflexivity. }
+  rewrite Htext. unfold fmt_string in *. destruct (p && use_hex s).
+  - (* hex form *)
+    unfold fmt_str_hex.
+    destruct (hex_text_head s [cRB] Hw) as (x & r & E & Hx).
+    apply (scan_objects_err L _ cLT (fmt_hex_body s ++ [cGT]) 1); try reflexivity; try exact Hd.
+    + unfold scan_fuel. lia.
+    + intros f Hf. destruct f as [|f]; [lia|]. cbn [app]. rewrite <- app_assoc.
+      unfold bytes, byte in *. rewrite E. rewrite read_object_hex by exact Hx. rewrite <- E.
+      unfold read_hex_string. cbn [app].
+      rewrite read_fmt_hex_body_over; [reflexivity | exact Hw | cbn [length]; lia | unfold blen in Hover; cbn [length]; lia].
+  - (* literal form *)
+    pose proof (string_limit_lemma L s [cRB] Hover) as Hl.
+    unfold fmt_str_lit in *.
+    apply (scan_objects_err L _ cLP (fmt_str_body None 0 (count_rp s) s ++ [cRP]) 1); try reflexivity; try exact Hd.
+    + unfold scan_fuel. lia.
+    + intros f Hf. destruct f as [|f]; [lia|]. cbn [app] in Hl |- *. rewrite read_object_lp.
+      change (read_string_tok L (cLP :: (fmt_str_body None 0 (count_rp s) s ++ [cRP]) ++ [cRB]))
+        with (read_string L ((fmt_str_body None 0 (count_rp s) s ++ [cRP]) ++ [cRB])) in Hl.
+      unfold bytes, byte in *. rewrite Hl. reflexivity.
+Qed.
+
+(* ---- names ---- *)
+Theorem name_limit_full L p n :
+  0 < max_depth L -> wfbs n = true -> max_name L <= blen n ->
+  scan_objects L (format p [OName n]) = Err Malformed.
+Proof.
+  intros Hd Hw Hover.
+  assert (Htext : format p [OName n] = fmt_name n).
+  { unfold format. destruct p; cbn [fmt_list_pretty fmt_list_plain fmt_obj fst app]; rewrite ?app_nil_r; reflexivity. }
+  rewrite Htext. unfold fmt_name.
+  apply (scan_objects_err L _ cSLASH (fmt_name_body n) 1); try reflexivity; try exact Hd.
+  - unfold scan_fuel. lia.
+  - intros f Hf. destruct f as [|f]; [lia|]. cbn [app]. rewrite read_object_name.
+    pose proof (name_limit_lemma L n cRB [] Hw Hover) as Hn. unfold fmt_name in Hn. cbn [app] in Hn.
+    unfold bytes, byte in *. rewrite Hn. reflexivity.
+Qed.
+
+(* ---- dictionaries: an entry that arrives when the dictionary is full ---- *)
+Lemma dict_step_gen_fail L d p k v ws Z f acc c X0 :
+  ro_spec v -> is_ref v = false -> wf_obj L d v = true -> wf_name L k = true -> (osize v <= f)%nat ->
+  dict_has acc k = false -> max_dict L <= N.of_nat (length acc) -> key_end c = true ->
+  is_lead ws -> follow_ok (ws ++ body p v ++ Z) = true ->
+  skip_ws Z = Ok (c :: X0) -> (ends_reg v = true -> follow_ok Z = true) ->
+  read_dict_loop L (S f) d acc (fmt_name k ++ ws ++ body p v ++ Z) = Err Malformed.
+Proof.
+  intros Hro Hr Hw Hk Hf Hfresh Hlen Hc Hws Hfo1 HZ Hfo2.
+  destruct (wf_name_facts L k Hk) as [Hk1 Hk2].
+  destruct (key_end_facts c X0 Hc) as (Hc1 & Hc2 & Hc3).
+  rewrite read_dict_loop_eq.
+  rewrite name_rt_lemma by assumption.
+  rewrite (skip_lead_body p L d v ws Z Hw Hws).
+  destruct (Hro p L d f Z (c :: X0) Hw Hr Hf HZ Hc2 Hfo2) as (s' & Hread & Hs').
+  rewrite Hread, Hs'. rewrite dict_lookahead_none by exact Hc.
+  rewrite Hfresh. cbn [negb andb].
+  replace (max_dict L <=? N.of_nat (length acc)) with true by (symmetry; apply N.leb_le; exact Hlen).
+  reflexivity.
+Qed.
+
+Lemma dict_step_ref_gen_fail L d k n g ws Z f acc c X0 :
+  wf_ref L n g = true -> wf_name L k = true ->
+  dict_has acc k = false -> max_dict L <= N.of_nat (length acc) -> key_end c = true ->
+  is_lead ws -> ws <> [] -> skip_ws Z = Ok (c :: X0) ->
+  read_dict_loop L (S (S f)) d acc (fmt_name k ++ ws ++ fmt_ref n g ++ Z) = Err Malformed.
+Proof.
+  intros Hw Hk Hfresh Hlen Hc Hws Hne HZ.
+  destruct (wf_ref_facts L n g Hw) as (Hin & Hig & Hn0 & Hg0 & Hln & Hlg & Hmk).
+  destruct (wf_name_facts L k Hk) as [Hk1 Hk2].
+  destruct Hws as [->| ->]; [congruence|]. clear Hne.
+  unfold fmt_ref. rewrite <- !app_assoc. cbn [app].
+  rewrite read_dict_loop_eq.
+  rewrite name_rt_lemma by (try assumption; reflexivity).
+  rewrite skip_ws_sp.
+  destruct (read_int_token L f d n (cSP :: print_int g ++ cSP :: cR :: Z) Hin Hln Hn0 eq_refl)
+    as (b1 & r1 & E1 & Hg1 & Hread1).
+  apply good_head_facts in Hg1 as (Hs1 & _).
+  assert (Hsk : skip_ws (print_int n ++ cSP :: print_int g ++ cSP :: cR :: Z)
+                = Ok (print_int n ++ cSP :: print_int g ++ cSP :: cR :: Z)).
+  { rewrite E1. cbn [app]. apply skip_ws_stop. exact Hs1. }
+  unfold bytes, byte in *. rewrite Hsk, Hread1. rewrite skip_ws_sp.
+  destruct (print_int_nonneg g Hg0) as (b2 & ds2 & E2 & Hb2 & Hd2).
+  destruct (digit_good b2 Hb2) as [Hg2 _]. apply good_head_facts in Hg2 as (Hs2 & _).
+  assert (Hsk2 : skip_ws (print_int g ++ cSP :: cR :: Z) = Ok (print_int g ++ cSP :: cR :: Z)).
+  { rewrite E2. cbn [app]. apply skip_ws_stop. exact Hs2. }
+  unfold bytes, byte in *. rewrite Hsk2.
+  assert (Hla : dict_lookahead L (OInt n) (print_int g ++ cSP :: cR :: Z) = Ok (ORef n g, c :: X0)).
+  { pose proof (read_integer_token L g (cR :: Z) Hig Hlg Hg0) as Hri.
+    rewrite E2 in Hri |- *. cbn [app] in Hri |- *. cbn [dict_lookahead].
+    assert (Hb2' : negb (b2 =? cSLASH) && negb (b2 =? cGT) = true).
+    { assert (Hlt : b2 < 256) by (unfold is_digit, c9 in Hb2; apply andb_true_iff in Hb2 as [_ Hb2]; apply N.leb_le in Hb2; lia).
+      pose proof (all_bytes_spec (fun b => implb (is_digit b) (negb (b =? cSLASH) && negb (b =? cGT)))
+                    ltac:(vm_compute; reflexivity) b2 Hlt) as H0.
+      cbv beta in H0. rewrite Hb2 in H0. exact H0. }
+    unfold bytes, byte in *. rewrite Hb2', Hri. rewrite skip_ws_sp. rewrite skip_ws_stop by reflexivity.
+    change (cR =? cR) with true. cbn iota. rewrite HZ, Hmk. reflexivity. }
+  unfold bytes, byte in *. rewrite Hla.
+  rewrite Hfresh. cbn [negb andb].
+  replace (max_dict L <=? N.of_nat (length acc)) with true by (symmetry; apply N.leb_le; exact Hlen).
+  reflexivity.
+Qed.
+
+Lemma dict_entry_step_fail L d p k v f acc c X0 :
+  ro_spec v -> is_ref v = false -> wf_obj L d v = true -> wf_name L k = true -> (osize v <= f)%nat ->
+  dict_has acc k = false -> max_dict L <= N.of_nat (length acc) -> key_end c = true ->
+  read_dict_loop L (S f) d acc (fmt_entry p k v ++ c :: X0) = Err Malformed.
+Proof.
+  intros Hro Hr Hw Hk Hf Hfresh Hlen Hc.
+  destruct (key_end_facts c X0 Hc) as (Hc1 & Hc2 & Hc3).
+  unfold fmt_entry. destruct p.
+  - change (fst (fmt_obj true false v)) with (body true v). rewrite <- !app_assoc.
+    change ([cLF] ++ c :: X0) with (cLF :: c :: X0).
+    apply (dict_step_gen_fail L d _ k v _ _ f acc c X0); auto;
+      first [ right; reflexivity | rewrite skip_ws_lf; exact Hc1 ].
+  - rewrite fmt_obj_split. cbn [fst]. rewrite <- !app_assoc.
+    apply (dict_step_gen_fail L d _ k v _ _ f acc c X0); auto;
+      first [ apply lead_is_lead | apply follow_lead_body with (L := L) (d := d); exact Hw ].
+Qed.
+
+Lemma dict_entry_step_ref_fail L d p k n g f acc c X0 :
+  wf_ref L n g = true -> wf_name L k = true ->
+  dict_has acc k = false -> max_dict L <= N.of_nat (length acc) -> key_end c = true ->
+  read_dict_loop L (S (S f)) d acc (fmt_entry p k (ORef n g) ++ c :: X0) = Err Malformed.
+Proof.
+  intros Hw Hk Hfresh Hlen Hc.
+  destruct (key_end_facts c X0 Hc) as (Hc1 & Hc2 & Hc3).
+  assert (E : fmt_entry p k (ORef n g) ++ c :: X0
+              = fmt_name k ++ [cSP] ++ fmt_ref n g ++ (if p then cLF :: c :: X0 else c :: X0)).
+  { unfold fmt_entry. destruct p; cbn [fmt_obj fst sp app]; rewrite <- ?app_assoc; cbn [app];
+      rewrite <- ?app_assoc; reflexivity. }
+  rewrite E. apply (dict_step_ref_gen_fail L d k n g _ _ f acc c X0); auto.
+  - right; reflexivity.
+  - discriminate.
+  - destruct p; [rewrite skip_ws_lf|]; exact Hc1.
+Qed.
+
+Lemma dict_loop_over L d p : forall es acc fuel rest,
+  Forall (fun kv => ro_spec (snd kv)) es ->
+  Forall (fun kv => wf_name L (fst kv) = true /\ wf_obj L d (snd kv) = true) es ->
+  NoDup (map fst acc ++ map fst es) ->
+  N.of_nat (length acc) <= max_dict L -> max_dict L < N.of_nat (length acc + length es) ->
+  (esz es <= fuel)%nat ->
+  read_dict_loop L fuel d acc (entries_text p es ++ kw_gtgt ++ rest) = Err Malformed.
+Proof.
+  induction es as [|[k v] es IH]; intros acc fuel rest Hro Hw Hnd Hle Hover Hfuel.
+  - cbn [length] in Hover. lia.
+  - inversion Hro as [|? ? Hro1 Hro2]; subst. inversion Hw as [|? ? [Hk Hwv] Hw2]; subst.
+    cbn [fst snd] in *.
+    assert (Hfresh : dict_has acc k = false).
+    { destruct (dict_has acc k) eqn:E; [|reflexivity]. exfalso.
+      apply dict_has_in in E. cbn [map fst] in Hnd. apply NoDup_remove_2 in Hnd.
+      apply Hnd. apply in_or_app. left. exact E. }
+    assert (Hnd' : NoDup (map fst (acc ++ [(k, norm v)]) ++ map fst es)).
+    { rewrite map_app. cbn [map fst]. rewrite <- app_assoc. exact Hnd. }
+    unfold entries_text. cbn [map concat fst snd]. fold (entries_text p es). rewrite <- app_assoc.
+    destruct (entries_head p es rest) as (c & X0 & EX & Hc). rewrite EX.
+    cbn [esz fold_right snd] in Hfuel. fold (esz es) in Hfuel.
+    destruct (N.leb_spec (max_dict L) (N.of_nat (length acc))) as [Hfull|Hroom].
+    + (* the dictionary is full: this entry is rejected *)
+      destruct (is_ref v) eqn:Er.
+      * destruct v; try discriminate. cbn [wf_obj] in Hwv. cbn [osize] in Hfuel.
+        destruct fuel as [|[|f]]; try lia. apply dict_entry_step_ref_fail; assumption.
+      * destruct fuel as [|f]; [lia|]. apply dict_entry_step_fail; auto. lia.
+    + assert (Hlen' : N.of_nat (length (acc ++ [(k, norm v)])) <= max_dict L)
+        by (rewrite app_length; cbn [length]; lia).
+      assert (Hover' : max_dict L < N.of_nat (length (acc ++ [(k, norm v)]) + length es))
+        by (rewrite app_length; cbn [length] in *; lia).
+      destruct (is_ref v) eqn:Er.
+      * destruct v; try discriminate. cbn [wf_obj] in Hwv. cbn [osize] in Hfuel.
+        destruct fuel as [|[|f]]; try lia.
+        rewrite dict_entry_step_ref by assumption. rewrite <- EX.
+        apply IH; auto. lia.
+      * destruct fuel as [|f]; [lia|].
+        rewrite dict_entry_step; [ | exact Hro1 | exact Er | exact Hwv | exact Hk | lia | exact Hfresh | exact Hroom | exact Hc ].
+        rewrite <- EX. apply IH; auto. lia.
+Qed.
+
+Theorem dict_limit_full L p l :
+  1 < max_depth L -> nodup_keys l = true ->
+  forallb (fun kv => wf_name L (fst kv) && wf_obj L 2 (snd kv)) l = true ->
+  max_dict L < N.of_nat (length (norm_entries l)) ->
+  scan_objects L (format p [ODict l]) = Err Malformed.
+Proof.
+  intros Hd Hnd Hall Hover.
+  set (es := sort_entries (filter nonnull l)).
+  assert (Hperm : Permutation es (filter nonnull l)) by apply sort_perm.
+  assert (Hin : forall kv, In kv es -> In kv l).
+  { intros kv H. apply (Permutation_in _ Hperm) in H. apply filter_In in H. tauto. }
+  assert (Htext : concat (map snd (sort_entries (fmt_frags p l))) = entries_text p es).
+  { rewrite fmt_frags_map. rewrite (sort_map (fun kv => fmt_entry p (fst kv) (snd kv))).
+    rewrite map_map. reflexivity. }
+  assert (Hlen : length es = length (norm_entries l)).
+  { rewrite (Permutation_length Hperm). rewrite norm_entries_map, map_length. reflexivity. }
+  assert (Hndes : NoDup (map fst es)).
+  { apply (Permutation_NoDup (l := map fst (filter nonnull l))).
+    - apply Permutation_map. symmetry. exact Hperm.
+    - apply NoDup_filter_fst. apply nodup_keys_NoDup. exact Hnd. }
+  assert (HP : Forall (fun kv => fuel_spec (snd kv)) l) by (apply Forall_forall; intros; apply fuel_all).
+  pose proof (frags_fuel p l L 2 HP Hall) as Hfu.
+  rewrite (concat_len_perm _ _ (Permutation_sym (Permutation_map snd (sort_perm (fmt_frags p l))))) in Hfu.
+  rewrite Htext in Hfu.
+  assert (Hesz : esz es = esize l) by (unfold es; rewrite (esz_perm _ _ (sort_perm _)); apply esz_filter).
+  assert (Hfmt : format p [ODict l]
+                 = cLT :: cLT :: (if p then [cLF] else []) ++ entries_text p es ++ kw_gtgt).
+  { unfold format. destruct p; cbn [fmt_list_pretty fmt_list_plain]; rewrite fmt_obj_dict;
+      cbn [fst app kw_ltlt]; rewrite Htext, ?app_nil_r; reflexivity. }
+  rewrite Hfmt.
+  apply (scan_objects_err L _ cLT (cLT :: (if p then [cLF] else []) ++ entries_text p es ++ kw_gtgt) (esize l + 3));
+    try reflexivity; try lia.
+  - unfold scan_fuel. cbn [app length]. rewrite !app_length. cbn [kw_gtgt length]. unfold bytes, byte in *. lia.
+  - intros f Hf. destruct f as [|[|f]]; try lia. cbn [app].
+    rewrite read_object_dict, read_dict_eq.
+    replace (max_depth L <=? 1) with false by (symmetry; apply N.leb_gt; exact Hd).
+    cbn [kw_ltlt starts_with]. change (cLT =? cLT) with true. cbn [andb drop].
+    destruct (entries_head p es [cRB]) as (c & X0 & EX & Hc).
+    destruct (key_end_facts c X0 Hc) as (Hc1 & _).
+    rewrite <- !app_assoc.
+    assert (Hsk : skip_ws ((if p then [cLF] else @nil byte) ++ entries_text p es ++ kw_gtgt ++ [cRB])
+                  = Ok (entries_text p es ++ kw_gtgt ++ [cRB])).
+    { rewrite EX. destruct p; cbn [app]; [rewrite skip_ws_lf|]; exact Hc1. }
+    unfold bytes, byte in *. rewrite Hsk.
+    match goal with |- match ?t with _ => _ end = _ =>
+      assert (X : t = Err Malformed); [ | rewrite X; reflexivity ] end.
+    apply dict_loop_over.
+    + apply Forall_forall. intros; apply ro_all.
+    + apply Forall_forall. intros kv Hkv. rewrite forallb_forall in Hall.
+      specialize (Hall kv (Hin kv Hkv)). apply andb_true_iff in Hall. exact Hall.
+    + cbn [map app]. exact Hndes.
+    + cbn [length]. lia.
+    + rewrite <- Hlen in Hover. exact Hover.
+    + rewrite Hesz. lia.
+Qed.
+
+(* ---- nesting depth ---- *)
+Lemma nest_text p k : body p (nest (S k)) = cLB :: body p (nest k) ++ [cRB].
+Proof.
+  unfold body. cbn [nest]. rewrite fmt_obj_arr. cbn [fst app].
+  destruct p; cbn [fmt_list_pretty fmt_list_plain app].
+  - rewrite app_nil_r. reflexivity.
+  - rewrite fmt_obj_split. cbn [lead andb app]. rewrite app_nil_r. reflexivity.
+Qed.
+Lemma nest_text0 p : body p (nest 0) = [cLB; cRB].
+Proof. unfold body. cbn [nest]. rewrite fmt_obj_arr. destruct p; reflexivity. Qed.
+
+Lemma nest_over L p : forall k d f tail,
+  max_depth L <= d + N.of_nat k -> (3 * k + 3 <= f)%nat ->
+  read_object L f d (body p (nest k) ++ tail) = Err Malformed.
+Proof.
+  induction k as [|k IH]; intros d f tail Hover Hf.
+  - destruct f as [|[|f]]; try lia. rewrite nest_text0. cbn [app].
+    rewrite read_object_lb, read_array_eq.
+    replace (max_depth L <=? d) with true by (symmetry; apply N.leb_le; lia). reflexivity.
+  - destruct f as [|[|[|f]]]; try lia. rewrite nest_text. cbn [app].
+    rewrite read_object_lb, read_array_eq.
+    destruct (max_depth L <=? d) eqn:E; [reflexivity|]. apply N.leb_gt in E.
+    rewrite read_arr_loop_eq. rewrite <- app_assoc.
+    assert (Hhead : exists r, body p (nest k) = cLB :: r)
+      by (destruct k; [rewrite nest_text0 | rewrite nest_text]; eexists; reflexivity).
+    destruct Hhead as (r & Er). rewrite Er. cbn [app]. rewrite skip_ws_stop by reflexivity.
+    change (cLB =? cRB) with false. change (cLB =? cR) with false. rewrite andb_false_r. cbn iota.
+    change (cLB :: r ++ cRB :: tail) with ((cLB :: r) ++ cRB :: tail). rewrite <- Er.
+    rewrite IH; [reflexivity | lia | lia].
+Qed.
+
+Theorem depth_limit_full L p k :
+  0 < max_depth L -> max_depth L <= N.of_nat (S k) ->
+  scan_objects L (format p [nest k]) = Err Malformed.
+Proof.
+  intros Hd Hover.
+  assert (Htext : format p [nest k] = body p (nest k)).
+  { unfold format, body. destruct p; cbn [fmt_list_pretty fmt_list_plain app].
+    - rewrite app_nil_r. reflexivity.
+    - destruct (fmt_obj false false (nest k)) eqn:E. cbn [fst]. rewrite app_nil_r. reflexivity. }
+  rewrite Htext.
+  assert (Hlen : (2 * k + 2 <= length (body p (nest k)))%nat).
+  { clear. induction k as [|k IH]; [rewrite nest_text0; cbn; lia|].
+    rewrite nest_text. cbn [length]. rewrite app_length. cbn [length]. lia. }
+  assert (Hhead : exists r, body p (nest k) = cLB :: r)
+    by (destruct k; [rewrite nest_text0 | rewrite nest_text]; eexists; reflexivity).
+  destruct Hhead as (r & Er).
+  apply (scan_objects_err L _ cLB r (3 * k + 3)); try reflexivity; try exact Hd; try exact Er.
+  - unfold scan_fuel. rewrite app_length. cbn [length]. unfold bytes, byte in *. lia.
+  - intros f Hf. apply nest_over; [lia | exact Hf].
+Qed.
+
+(* with maxScannerNestDepth = 1 every composite is already too deep *)
+Lemma depth1_array L r : 0 < max_depth L -> max_depth L <= 1 ->
+  scan_objects L (cLB :: r) = Err Malformed.
+Proof.
+  intros Hd H1.
+  apply (scan_objects_err L _ cLB r 2); try reflexivity; try exact Hd.
+  - unfold scan_fuel. cbn [app length]. lia.
+  - intros f Hf. destruct f as [|[|f]]; try lia. cbn [app].
+    rewrite read_object_lb, read_array_eq.
+    replace (max_depth L <=? 1) with true by (symmetry; apply N.leb_le; exact H1). reflexivity.
+Qed.
+Lemma depth1_dict L r : 0 < max_depth L -> max_depth L <= 1 ->
+  scan_objects L (cLT :: cLT :: r) = Err Malformed.
+Proof.
+  intros Hd H1.
+  apply (scan_objects_err L _ cLT (cLT :: r) 2); try reflexivity; try exact Hd.
+  - unfold scan_fuel. cbn [app length]. lia.
+  - intros f Hf. destruct f as [|[|f]]; try lia. cbn [app].
+    rewrite read_object_dict, read_dict_eq.
+    replace (max_depth L <=? 1) with true by (symmetry; apply N.leb_le; exact H1). reflexivity.
+Qed.
+
+(* The complete statement: a value just beyond any one of the five limits is rejected with a
+   MalformedFileError, in both output styles, by the complete reader (scan_objects, its own fuel). *)
+Definition limits_reject_stmt : Prop :=
+  forall L p, 0 < max_depth L ->
+  (forall s, wfbs s = true ->
+             (if p && use_hex s then max_str L < blen s else max_str L <= blen s) ->
+             scan_objects L (format p [OStr s]) = Err Malformed) /\
+  (forall n, wfbs n = true -> max_name L <= blen n ->
+             scan_objects L (format p [OName n]) = Err Malformed) /\
+  (forall l, forallb (wf_obj L 2) l = true -> max_arr L < N.of_nat (length l) ->
+             scan_objects L (format p [OArr l]) = Err Malformed) /\
+  (forall l, nodup_keys l = true ->
+             forallb (fun kv => wf_name L (fst kv) && wf_obj L 2 (snd kv)) l = true ->
+             max_dict L < N.of_nat (length (norm_entries l)) ->
+             scan_objects L (format p [ODict l]) = Err Malformed) /\
+  (forall k, max_depth L <= N.of_nat (S k) ->
+             scan_objects L (format p [nest k]) = Err Malformed).
+
+Theorem limits_reject_all : limits_reject_stmt.
+Proof.
+  intros L p Hd. split; [|split; [|split; [|split]]].
+  - intros s Hw H. apply string_limit_full; assumption.
+  - intros n Hw H. apply name_limit_full; assumption.
+  - intros l Hw H. destruct (N.ltb_spec 1 (max_depth L)) as [H1|H1].
+    + apply array_limit_full; assumption.
+    + rewrite array_text. apply depth1_array; assumption.
+  - intros l Hnd Hw H. destruct (N.ltb_spec 1 (max_depth L)) as [H1|H1].
+    + apply dict_limit_full; assumption.
+    + assert (Hfmt : exists r, format p [ODict l] = cLT :: cLT :: r).
+      { unfold format. destruct p; cbn [fmt_list_pretty fmt_list_plain]; rewrite fmt_obj_dict;
+          cbn [fst app kw_ltlt]; eexists; reflexivity. }
+      destruct Hfmt as (r & ->). apply depth1_dict; assumption.
+  - intros k H. apply depth_limit_full; assumption.
+Qed.
+
